@@ -208,7 +208,8 @@ func ruleC17Reserve(cx *Ctx) {
 		case full:
 			onCap := false
 			for _, g := range guardsAt(ret.Block()) {
-				if b, ok := g.Cond.(*ssa.BinOp); ok && b.Op == token.GEQ && g.Truth {
+				// size >= capacity, in either spelling: (size >= n) true, or (size < n) false
+				if b, ok := g.Cond.(*ssa.BinOp); ok && ((b.Op == token.GEQ && g.Truth) || (b.Op == token.LSS && !g.Truth)) {
 					onCap = true
 				}
 			}
